@@ -183,7 +183,7 @@ fn pipe_candidates(p: &Pipe) -> Vec<Pipe> {
             Sink::WithLen(c) if *c != Container::Vec => Some(Sink::WithLen(Container::Vec)),
             Sink::TryTrusted(c) if *c != Container::Vec => Some(Sink::TryTrusted(Container::Vec)),
             Sink::TryPlain(c) if *c != Container::Vec => Some(Sink::TryPlain(Container::Vec)),
-            Sink::Write { buf, len } if *len > 0 => Some(Sink::Write { buf: *buf, len: len - 1 }),
+            Sink::Write { buf, len, slack } if *len > 0 => Some(Sink::Write { buf: *buf, len: len - 1, slack: *slack }),
             _ => None,
         };
         if let Some(s) = simpler {
